@@ -70,7 +70,7 @@ Qed.
 (* what "stays below the root" means for each kind of root *)
 Definition below_root (r : g_root) (p : str) : Prop :=
   match r with
-  | RSymbolDir | RCacheDir =>
+  | RSymbolDir | RCacheDir | RTmpDir =>
       forall style root, is_prefix root (join style root p) = true /\
         exists s, join style root p = root ++ s ++ p /\ (s = [] \/ s = [47] \/ s = [92]) /\
                   Forall (fun c => c <> dotdot) (split_seps (s ++ p))
@@ -82,6 +82,7 @@ Definition below_root (r : g_root) (p : str) : Prop :=
 Lemma good_string_below : forall r p, known_root r = true -> safe_rel p -> bytes p -> p <> [] -> below_root r p.
 Proof.
   intros r p K S B N. destruct r; cbn [below_root]; try discriminate.
+  - intros style root. exact (join_contained style root p S).
   - intros style root. exact (join_contained style root p S).
   - intros style root. exact (join_contained style root p S).
   - intro bp. rewrite (bytes_of_request bp p B). exact (contained_prefix bp p B S N).
@@ -124,6 +125,49 @@ Proof.
   destruct (eval_arg_good (s_arg s) m k p MB MH H) as [S [B N]].
   split; [exact S | exact (good_string_below (s_root s) p Kr S B N)].
 Qed.
+
+(* ---- file system sinks ---------------------------------------------------------------------------------- *)
+Lemma all_sinks_known : unknown_sinks g_fs_sinks = [].
+Proof. vm_compute. reflexivity. Qed.
+
+Lemma sink_known : forall k, In k g_fs_sinks -> known_sink k = true.
+Proof.
+  intros k H. destruct (known_sink k) eqn:K; [reflexivity|].
+  assert (I : In k (unknown_sinks g_fs_sinks)).
+  { unfold unknown_sinks. apply filter_In. split; [exact H | rewrite K; reflexivity]. }
+  rewrite all_sinks_known in I. destruct I.
+Qed.
+
+(* every path a sink receives is a root, or a root joined with a string that stays below it
+   (k_parents = 1: the parent directory of such a path, for create_dir_all) *)
+Lemma sink_contained : forall k, In k g_fs_sinks ->
+  (k_parents k <= 1)%nat /\ k_paths k <> [] /\
+  forall q, In q (k_paths k) ->
+    match q with
+    | PRoot r => known_root r = true
+    | PJoined r a => known_root r = true /\
+        forall m kd p, mv_bytes m -> mv_hex m -> eval_arg a m kd = Some p -> safe_rel p /\ below_root r p
+    | PUnknownPath => False
+    end.
+Proof.
+  intros k I. pose proof (sink_known k I) as K. unfold known_sink in K.
+  apply andb_true_iff in K. destruct K as [K Kp]. apply andb_true_iff in K. destruct K as [Ka Kn].
+  split; [apply Nat.leb_le; exact Kp|]. split; [destruct (k_paths k); [discriminate | discriminate]|].
+  intros q Hq. rewrite forallb_forall in Ka. specialize (Ka q Hq). destruct q as [r|r a|]; cbn [known_path] in Ka.
+  - exact Ka.
+  - apply andb_true_iff in Ka. destruct Ka as [Kr _]. split; [exact Kr|].
+    intros m kd p MB MH H. destruct (eval_arg_good a m kd p MB MH H) as [S [B N]].
+    split; [exact S | exact (good_string_below r p Kr S B N)].
+  - discriminate.
+Qed.
+
+Definition sinks_witness : Prop :=
+  existsb (fun k => String.eqb (k_fn k) "fetch_lookup"%string && String.eqb (k_text k) ".persist_noclobber(&final_cache_path)"%string &&
+                    match k_paths k with [PJoined RCacheDir (ACacheRel (GBuilt BLookup))] => true | _ => false end) g_fs_sinks = true /\
+  existsb (fun k => String.eqb (k_text k) "fs::create_dir_all(base)"%string && Nat.eqb (k_parents k) 1) g_fs_sinks = true /\
+  (10 <= List.length g_fs_sinks)%nat.
+Lemma sinks_nonvacuous : sinks_witness.
+Proof. unfold sinks_witness. split; [|split]; vm_compute; try reflexivity. repeat constructor. Qed.
 
 (* the two translators agree on which calls are consumer joins (join_sites.py: every `.join(` / `join_rel(`
    call with its text; c17_flow.py: the consumer ones with their provenance) *)
